@@ -58,11 +58,21 @@ def mkSeq : SeqKind → List PyVal → PyVal
   | .list, xs => .list xs
   | .deque, xs => .deque xs
 
+mutual
 /-- Python objects for which `x in some_set` raises TypeError (unhashable); a `set` is looked up
     as its frozenset, so it does not raise -/
 def unhashable : PyVal → Bool
-  | .list _ | .dict _ | .deque _ => true
+  | .list _ => true
+  | .dict _ => true
+  | .deque _ => true
+  | .tuple xs => unhashableAny xs      -- a tuple hashes its elements
   | _ => false
+termination_by structural v => v
+def unhashableAny : List PyVal → Bool
+  | [] => false
+  | x :: xs => unhashable x || unhashableAny xs
+termination_by structural xs => xs
+end
 
 /-- remove later `==`-duplicates (building a Python set from a list) -/
 def dedup : List PyVal → List PyVal
